@@ -1098,6 +1098,15 @@ class Rename(ast.NodeTransformer):
 
 
 # ----------------------------------------------------------------------- 2. helper inlining
+_BUILTIN_NAMES = set()
+for _t in (str, bytes, list, tuple, dict, set, frozenset, int, float, object, type):
+    _BUILTIN_NAMES |= set(dir(_t))
+
+
+def _BUILTIN_METHOD(name):
+    return name in _BUILTIN_NAMES
+
+
 class Normalizer:
     def __init__(self, prog, known: Optional[set] = None):
         self.prog = prog
@@ -1235,6 +1244,12 @@ class Normalizer:
                         b = prog.resolve(tm, f.attr)
                         if b is not None and b.kind == 'def':
                             target = b.value
+                elif r is None or r[0] not in ('external', 'def'):
+                    # obj.helper(...) on an object whose class is not written at the call: a method name the pinned tree does
+                    # not know, defined by exactly one class of the program and by no built-in type, names its definition
+                    cands = self._methods_named(f.attr)
+                    if len(cands) == 1 and cands[0].kind == 'method' and not _BUILTIN_METHOD(f.attr):
+                        target, recv = cands[0], v
         if target is None or isinstance(target, str):
             return None
         if target.module.generated or target.module.legacy:
@@ -1250,6 +1265,16 @@ class Normalizer:
         if id(target.node) in self.active:
             return None             # recursion
         return target, recv
+
+    def _methods_named(self, name):
+        idx = getattr(self, '_method_index', None)
+        if idx is None:
+            idx = {}
+            for fi_ in self.prog.functions.values():
+                if fi_.cls is not None and fi_.outer is None and not fi_.module.generated:
+                    idx.setdefault(fi_.name, []).append(fi_)
+            self._method_index = idx
+        return idx.get(name, [])
 
     # ---- binding
     def bind(self, call: ast.Call, target: FuncInfo, recv, fi: FuncInfo):
